@@ -52,6 +52,25 @@ case "$tool" in
         done
       done; done
     fi ;;
+  asan)
+    # the whole monitor binary under AddressSanitizer, quick workload of the property itself
+    export RUSTFLAGS="--cfg grafeo_verif -Zsanitizer=address -Cforce-frame-pointers=yes"
+    if ! CARGO_TARGET_DIR=/verif/target-asan cargo +nightly build -q --target x86_64-unknown-linux-gnu -p vh >"$logdir/build.log" 2>&1; then
+      echo "INCONCLUSIVE property=$id reason=asan build failed"; tail -5 "$logdir/build.log"; inconclusive=1
+    else
+      bin=/verif/target-asan/x86_64-unknown-linux-gnu/debug/vh
+      runs=1
+      VH_OUT="$logdir/out" ASAN_OPTIONS="detect_leaks=0:halt_on_error=0:log_path=$logdir/asan" timeout 3000 "$bin" "$id" --tier quick >"$logdir/run.out" 2>&1
+      rc=$?
+      for f in "$logdir"/asan.*; do [ -f "$f" ] || continue
+        n=$(grep -c "ERROR: AddressSanitizer" "$f"); [ "$n" -gt 0 ] || continue
+        reports=$((reports+n)); mkdir -p /verif/replays/$id; cp "$f" /verif/replays/$id/asan_$(basename $f).log
+        sig=$(grep -m1 -o "AddressSanitizer: [a-z-]*" "$f" | tr ' ' '_'); site=$(grep -m1 -o "/repo/crates/[^ :]*" "$f" | sed 's#/repo/##')
+        echo "VIOLATION property=$id replay=/verif/replays/$id/asan_$(basename $f).log signature=asan:$sig:$site"
+      done
+      if [ $rc -ne 0 ] && [ $rc -ne 1 ] && [ "$reports" -eq 0 ]; then inconclusive=1; fi
+      grep -E "^SUMMARY" "$logdir/run.out" | head -1
+    fi ;;
   *) echo "unknown tool $tool"; exit 2 ;;
 esac
 printf '{"tool":"%s","workloads":"%s","runs":%d,"reports":%d,"inconclusive":%d}\n' "$tool" "${workloads[*]}" "$runs" "$reports" "$inconclusive" > "$out"
